@@ -172,7 +172,7 @@ func TestC17(t *testing.T) {
 		t.Fatal(err)
 	}
 
-	nHist := hx.N(2, 6)
+	nHist := hx.N(3, 20)
 	nChild := 3
 	if hx.Tier() == "thorough" {
 		nChild = len(variations)
